@@ -191,12 +191,12 @@ Section C07.
       r = false /\ pick_gt m_end (par_hash p) = Some g.
   Proof. exact (invalid_gt_stuck chain view cv tx_valid gt_ok work_needed supply_ok hchain mroot). Qed.
 
-  (* local clock not after the tip's timestamp: bundle_block panics (assert!) before looking
-     at anything else *)
-  Theorem C07_bundle_ts_panics : forall dbg (n : node chain) creator m ts gt stake order p,
+  (* local clock not after the tip's timestamp: bundle_block declines and leaves the pool
+     alone -- no panic on timestamp order (the assert! was replaced by fix f62222f) *)
+  Theorem C07_bundle_ts_declines : forall dbg (n : node chain) creator m ts gt stake order p,
     v_tip (view (n_chain _ n)) = Some p -> ts <= par_ts p ->
-    bundle dbg n creator m ts gt stake order = Panic SITE_BUNDLE_TS.
-  Proof. exact (bundle_ts_panics chain view cv tx_valid work_needed hchain mroot). Qed.
+    bundle dbg n creator m ts gt stake order = Ok (GateClosed, m).
+  Proof. exact (bundle_ts_declines chain view cv tx_valid work_needed hchain mroot). Qed.
 
   (* Block::create fails only through its double-spend detection, and then the pool is gone *)
   Theorem C07_create_error_is_double_spend : forall dbg (n : node chain) creator ts gt drained,
@@ -228,35 +228,35 @@ Definition wn0 : N -> N -> N -> N -> N := fun _ _ _ _ => 0.
 
 (* cap: {"label": "dust-profile", "tip": 5, "gap_ms": 25000, "pool_size": 4, "cached_work": 80000, "work_needed": 0, "gt_for_tip": false, "outcome": "Rejected", "detail": "block 6 txs(types) [0, 0, 0, 0, 3] producer Invalid second node Invalid; atr multiplier 3; diffs [\"rebroadcast_hash: hash over the block's rebroadcast transactions differs from the recomputed one\"]; create-vs-validate cv []"} *)
 Definition wit_cap : rcase :=
-  mkRC (mkView (Some (mkPar 65 5 1100000 40000 2 96428 12649111 false)) false 0 10000 3280 true true) (mkM [(mkTx 69 70 TNormal 20000 [71] 0); (mkTx 72 73 TNormal 20000 [74] 0); (mkTx 75 76 TNormal 20000 [77] 0); (mkTx 78 79 TNormal 20000 [80] 0)] [71; 74; 77; 80] 80000 true true []) 18 1125000 (Some (mkTx 14 15 TBlockStake 0 [] 0)) [70; 79; 76; 73] 81 (mkCv (mkE 80000 80000 0 95600 73115 69464 3651 0 0 0 0 0 21728 12840 0 0 0 44 56 112540 8000000 0) [(mkTx 82 9 TATR 0 [83] 1)] 1 84 None) (mkCv (mkE 80000 80000 0 95600 73115 69464 3651 0 0 0 0 0 21728 12840 0 0 0 44 56 112540 8000000 0) [(mkTx 82 9 TATR 0 [83] 1)] 1 84 None) [(69, true); (72, true); (75, true); (78, true); (14, false); (82, false)] [] [([82], 85); ([], 0)] [([69; 78; 75; 72; 82], 86)] true [[4]; [69; 78; 75; 72; 82]; [6; 1125000; 65; 96428; 40000; 2]; [80000; 80000; 0; 95600; 73115; 69464; 3651; 0; 0; 0; 0; 0; 21728; 12840; 0; 0; 0; 44; 56; 112540; 8000000; 0]; [80000; 1; 85; 86]; [0; 0]; [70; 73; 76; 79]; [80000; 1]; []].
+  mkRC (mkView (Some (mkPar 65 5 1100000 40000 2 96428 12649111 false)) false 0 10000 1691 true true) (mkM [(mkTx 69 70 TNormal 20000 [71] 0); (mkTx 72 73 TNormal 20000 [74] 0); (mkTx 75 76 TNormal 20000 [77] 0); (mkTx 78 79 TNormal 20000 [80] 0)] [71; 74; 77; 80] 80000 true true []) 18 1125000 (Some (mkTx 14 15 TBlockStake 0 [] 0)) [70; 79; 76; 73] 81 (mkCv (mkE 80000 80000 0 95600 73115 69464 3651 0 0 0 0 0 21728 12840 0 0 0 44 56 112540 8000000 0) [(mkTx 82 9 TATR 0 [83] 1)] 1 84 None) (mkCv (mkE 80000 80000 0 95600 73115 69464 3651 0 0 0 0 0 21728 12840 0 0 0 44 56 112540 8000000 0) [(mkTx 82 9 TATR 0 [83] 1)] 1 84 None) [(69, true); (72, true); (75, true); (78, true); (14, false); (82, false)] [] [([82], 85); ([], 0)] [([69; 78; 75; 72; 82], 86)] true [[4]; [69; 78; 75; 72; 82]; [6; 1125000; 65; 96428; 40000; 2]; [80000; 80000; 0; 95600; 73115; 69464; 3651; 0; 0; 0; 0; 0; 21728; 12840; 0; 0; 0; 44; 56; 112540; 8000000; 0]; [80000; 1; 85; 86]; [0; 0]; [70; 73; 76; 79]; [80000; 1]; []].
 
 (* gt: {"label": "invalid-golden-ticket", "tip": 4, "gap_ms": 25000, "pool_size": 3, "cached_work": 5150, "work_needed": 0, "gt_for_tip": true, "outcome": "Rejected", "detail": "block 5 txs(types) [2, 0, 0, 0, 1] producer Invalid second node Invalid; atr multiplier 1; diffs []; create-vs-validate cv []"} *)
 Definition wit_gt : rcase :=
-  mkRC (mkView (Some (mkPar 46 4 1075000 0 2120 5300 20000000 false)) false 0 10000 555 true true) (mkM [(mkTx 50 51 TNormal 0 [52] 0); (mkTx 53 54 TNormal 150 [55] 0); (mkTx 56 57 TNormal 5000 [58] 0)] [52; 55; 58] 5150 true true [(46, mkTx 59 60 TGoldenTicket 0 [] 0)]) 19 1100000 (Some (mkTx 13 14 TBlockStake 0 [] 0)) [57; 54; 51] 61 (mkCv (mkE 5300 5300 0 5300 3128 3128 0 2650 2650 0 0 0 1157 1157 0 0 0 0 3 0 12649111 3) [] 0 0 (Some (mkTx 62 0 TFee 0 [] 0))) (mkCv (mkE 5300 5300 0 5300 3128 3128 0 2650 2650 0 0 0 1157 1157 0 0 0 0 3 0 12649111 3) [] 0 0 (Some (mkTx 62 0 TFee 0 [] 0))) [(50, true); (53, true); (56, true); (13, false); (59, true); (62, true)] [(59, false)] [([], 0)] [([59; 56; 53; 50; 62], 64)] true [[4]; [59; 56; 53; 50; 62]; [5; 1100000; 46; 0; 0; 2120]; [5300; 5300; 0; 5300; 3128; 3128; 0; 2650; 2650; 0; 0; 0; 1157; 1157; 0; 0; 0; 0; 3; 0; 12649111; 3]; [5150; 0; 0; 64]; [0; 0]; [51; 54; 57]; [5150; 1]; [46]].
+  mkRC (mkView (Some (mkPar 46 4 1075000 0 2120 5300 20000000 false)) false 0 10000 3494 true true) (mkM [(mkTx 50 51 TNormal 0 [52] 0); (mkTx 53 54 TNormal 150 [55] 0); (mkTx 56 57 TNormal 5000 [58] 0)] [52; 55; 58] 5150 true true [(46, mkTx 59 60 TGoldenTicket 0 [] 0)]) 19 1100000 (Some (mkTx 13 14 TBlockStake 0 [] 0)) [51; 57; 54] 61 (mkCv (mkE 5300 5300 0 5300 3128 3128 0 2650 2650 0 0 0 1157 1157 0 0 0 0 3 0 12649111 3) [] 0 0 (Some (mkTx 62 0 TFee 0 [] 0))) (mkCv (mkE 5300 5300 0 5300 3128 3128 0 2650 2650 0 0 0 1157 1157 0 0 0 0 3 0 12649111 3) [] 0 0 (Some (mkTx 62 0 TFee 0 [] 0))) [(50, true); (53, true); (56, true); (13, false); (59, true); (62, true)] [(59, false)] [([], 0)] [([59; 50; 56; 53; 62], 64)] true [[4]; [59; 50; 56; 53; 62]; [5; 1100000; 46; 0; 0; 2120]; [5300; 5300; 0; 5300; 3128; 3128; 0; 2650; 2650; 0; 0; 0; 1157; 1157; 0; 0; 0; 0; 3; 0; 12649111; 3]; [5150; 0; 0; 64]; [0; 0]; [51; 54; 57]; [5150; 1]; [46]].
 
-(* issuance: {"label": "issuance", "tip": 3, "gap_ms": 25000, "pool_size": 4, "cached_work": 5150, "work_needed": 0, "gt_for_tip": false, "outcome": "Rejected", "detail": "block 4 txs(types) [6, 0, 0, 0] producer Invalid second node Invalid; atr multiplier 1; diffs []; create-vs-validate cv []"} *)
+(* issuance: {"label": "issuance", "tip": 3, "gap_ms": 25000, "pool_size": 4, "cached_work": 5150, "work_needed": 0, "gt_for_tip": false, "outcome": "Rejected", "detail": "block 4 txs(types) [0, 6, 0, 0] producer Invalid second node Invalid; atr multiplier 1; diffs []; create-vs-validate cv []"} *)
 Definition wit_issuance : rcase :=
-  mkRC (mkView (Some (mkPar 27 3 1050000 0 2120 5300 31622777 false)) false 0 10000 3659 true true) (mkM [(mkTx 31 32 TNormal 150 [33] 0); (mkTx 34 35 TNormal 0 [36] 0); (mkTx 37 38 TNormal 5000 [39] 0); (mkTx 40 41 TIssuance 0 [] 0)] [33; 36; 39] 5150 true true []) 15 1075000 (Some (mkTx 11 12 TBlockStake 0 [] 0)) [41; 35; 38; 32] 42 (mkCv (mkE 5300 5300 0 5300 2586 2586 0 0 0 0 0 0 255 255 0 0 0 1 5 0 20000000 0) [] 0 0 None) (mkCv (mkE 5300 5300 0 5300 2586 2586 0 0 0 0 0 0 255 255 0 0 0 1 5 0 20000000 0) [] 0 0 None) [(31, true); (34, true); (37, true); (40, true); (11, false)] [] [([], 0)] [([40; 34; 37; 31], 43)] true [[4]; [40; 34; 37; 31]; [4; 1075000; 27; 5300; 0; 2120]; [5300; 5300; 0; 5300; 2586; 2586; 0; 0; 0; 0; 0; 0; 255; 255; 0; 0; 0; 1; 5; 0; 20000000; 0]; [5150; 0; 0; 43]; [0; 0]; [32; 35; 38]; [5150; 1]; []].
+  mkRC (mkView (Some (mkPar 27 3 1050000 0 2120 5300 31622777 false)) false 0 10000 3268 true true) (mkM [(mkTx 31 32 TNormal 150 [33] 0); (mkTx 34 35 TNormal 0 [36] 0); (mkTx 37 38 TNormal 5000 [39] 0); (mkTx 40 41 TIssuance 0 [] 0)] [33; 36; 39] 5150 true true []) 15 1075000 (Some (mkTx 11 12 TBlockStake 0 [] 0)) [32; 41; 35; 38] 42 (mkCv (mkE 5300 5300 0 5300 2586 2586 0 0 0 0 0 0 255 255 0 0 0 1 5 0 20000000 0) [] 0 0 None) (mkCv (mkE 5300 5300 0 5300 2586 2586 0 0 0 0 0 0 255 255 0 0 0 1 5 0 20000000 0) [] 0 0 None) [(31, true); (34, true); (37, true); (40, true); (11, false)] [] [([], 0)] [([31; 40; 34; 37], 43)] true [[4]; [31; 40; 34; 37]; [4; 1075000; 27; 5300; 0; 2120]; [5300; 5300; 0; 5300; 2586; 2586; 0; 0; 0; 0; 0; 0; 255; 255; 0; 0; 0; 1; 5; 0; 20000000; 0]; [5150; 0; 0; 43]; [0; 0]; [32; 35; 38]; [5150; 1]; []].
 
 (* stake: {"label": "foreign-stake", "tip": 3, "gap_ms": 25000, "pool_size": 4, "cached_work": 5150, "work_needed": 0, "gt_for_tip": false, "outcome": "Rejected", "detail": "block 4 txs(types) [0, 0, 0, 7, 7] producer Invalid second node Invalid; atr multiplier 1; diffs []; create-vs-validate cv []"} *)
 Definition wit_stake : rcase :=
-  mkRC (mkView (Some (mkPar 31 3 1050000 0 2120 5300 31622777 false)) false 50000 10000 453 true true) (mkM [(mkTx 35 36 TNormal 150 [37] 0); (mkTx 38 39 TNormal 0 [40] 0); (mkTx 41 42 TBlockStake 0 [43] 0); (mkTx 44 45 TNormal 5000 [46] 0)] [37; 40; 43; 46] 5150 true true []) 16 1075000 (Some (mkTx 47 48 TBlockStake 0 [49] 0)) [36; 39; 45; 42; 48] 50 (mkCv (mkE 5300 5300 0 5300 2586 2586 0 0 0 0 0 0 255 255 0 0 0 1 5 0 20000000 0) [] 0 0 None) (mkCv (mkE 5300 5300 0 5300 2586 2586 0 0 0 0 0 0 255 255 0 0 0 1 5 0 20000000 0) [] 0 0 None) [(35, true); (38, true); (41, true); (44, true); (47, true)] [] [([], 0)] [([35; 38; 44; 41; 47], 51)] true [[4]; [35; 38; 44; 41; 47]; [4; 1075000; 31; 5300; 0; 2120]; [5300; 5300; 0; 5300; 2586; 2586; 0; 0; 0; 0; 0; 0; 255; 255; 0; 0; 0; 1; 5; 0; 20000000; 0]; [5150; 0; 0; 51]; [0; 0]; [36; 39; 45]; [5150; 1]; []].
+  mkRC (mkView (Some (mkPar 31 3 1050000 0 2120 5300 31622777 false)) false 50000 10000 779 true true) (mkM [(mkTx 35 36 TNormal 150 [37] 0); (mkTx 38 39 TNormal 0 [40] 0); (mkTx 41 42 TBlockStake 0 [43] 0); (mkTx 44 45 TNormal 5000 [46] 0)] [37; 40; 43; 46] 5150 true true []) 16 1075000 (Some (mkTx 47 48 TBlockStake 0 [49] 0)) [45; 39; 36; 42; 48] 50 (mkCv (mkE 5300 5300 0 5300 2586 2586 0 0 0 0 0 0 255 255 0 0 0 1 5 0 20000000 0) [] 0 0 None) (mkCv (mkE 5300 5300 0 5300 2586 2586 0 0 0 0 0 0 255 255 0 0 0 1 5 0 20000000 0) [] 0 0 None) [(35, true); (38, true); (41, true); (44, true); (47, true)] [] [([], 0)] [([44; 38; 35; 41; 47], 51)] true [[4]; [44; 38; 35; 41; 47]; [4; 1075000; 31; 5300; 0; 2120]; [5300; 5300; 0; 5300; 2586; 2586; 0; 0; 0; 0; 0; 0; 255; 255; 0; 0; 0; 1; 5; 0; 20000000; 0]; [5150; 0; 0; 51]; [0; 0]; [36; 39; 45]; [5150; 1]; []].
 
 (* clash: {"label": "rebroadcast-clash", "tip": 4, "gap_ms": 25000, "pool_size": 4, "cached_work": 5650, "work_needed": 0, "gt_for_tip": true, "outcome": "CreateFailed", "detail": ""} *)
 Definition wit_clash : rcase :=
-  mkRC (mkView (Some (mkPar 40 4 1075000 0 2 5300 20000000 false)) false 0 10000 4699 true true) (mkM [(mkTx 42 43 TNormal 500 [44] 0); (mkTx 45 46 TNormal 5000 [47] 0); (mkTx 48 49 TNormal 150 [50] 0); (mkTx 51 52 TNormal 0 [53] 0)] [44; 47; 50; 53] 5650 true true [(40, mkTx 54 55 TGoldenTicket 0 [] 0)]) 15 1100000 (Some (mkTx 11 12 TBlockStake 0 [] 0)) [43; 46; 49; 52; 12] 0 (mkCv (mkE 9728 0 9728 9728 5728 2486 3242 5300 2650 2650 0 0 2159 1276 883 0 0 2 0 8560372 12649111 0) [(mkTx 56 57 TATR 0 [58] 1); (mkTx 59 60 TATR 0 [61] 1); (mkTx 62 63 TATR 0 [64] 1); (mkTx 65 66 TATR 0 [67] 1); (mkTx 68 69 TATR 0 [70] 1); (mkTx 71 72 TATR 0 [73] 1); (mkTx 74 75 TATR 0 [76] 1); (mkTx 77 78 TATR 0 [79] 1); (mkTx 80 81 TATR 0 [82] 1); (mkTx 83 84 TATR 0 [85] 1); (mkTx 86 87 TATR 0 [88] 1); (mkTx 89 90 TATR 0 [91] 1); (mkTx 92 93 TATR 0 [94] 1); (mkTx 95 96 TATR 0 [97] 1); (mkTx 98 99 TATR 0 [100] 1); (mkTx 101 102 TATR 0 [103] 1); (mkTx 104 105 TATR 0 [106] 1); (mkTx 107 108 TATR 0 [109] 1); (mkTx 110 111 TATR 0 [112] 1); (mkTx 113 114 TATR 0 [115] 1); (mkTx 116 117 TATR 0 [118] 1); (mkTx 119 120 TATR 0 [121] 1); (mkTx 122 123 TATR 0 [124] 1); (mkTx 125 126 TATR 0 [127] 1); (mkTx 128 129 TATR 0 [44] 1); (mkTx 130 131 TATR 0 [132] 1); (mkTx 133 134 TATR 0 [135] 1); (mkTx 136 137 TATR 0 [138] 1); (mkTx 139 140 TATR 0 [141] 1); (mkTx 142 143 TATR 0 [144] 1); (mkTx 145 146 TATR 0 [147] 1); (mkTx 148 149 TATR 0 [150] 1)] 32 152 (Some (mkTx 151 0 TFee 0 [] 0))) (mkCv (mkE 9728 0 9728 9728 5728 2486 3242 5300 2650 2650 0 0 2159 1276 883 0 0 2 0 8560372 12649111 0) [(mkTx 56 57 TATR 0 [58] 1); (mkTx 59 60 TATR 0 [61] 1); (mkTx 62 63 TATR 0 [64] 1); (mkTx 65 66 TATR 0 [67] 1); (mkTx 68 69 TATR 0 [70] 1); (mkTx 71 72 TATR 0 [73] 1); (mkTx 74 75 TATR 0 [76] 1); (mkTx 77 78 TATR 0 [79] 1); (mkTx 80 81 TATR 0 [82] 1); (mkTx 83 84 TATR 0 [85] 1); (mkTx 86 87 TATR 0 [88] 1); (mkTx 89 90 TATR 0 [91] 1); (mkTx 92 93 TATR 0 [94] 1); (mkTx 95 96 TATR 0 [97] 1); (mkTx 98 99 TATR 0 [100] 1); (mkTx 101 102 TATR 0 [103] 1); (mkTx 104 105 TATR 0 [106] 1); (mkTx 107 108 TATR 0 [109] 1); (mkTx 110 111 TATR 0 [112] 1); (mkTx 113 114 TATR 0 [115] 1); (mkTx 116 117 TATR 0 [118] 1); (mkTx 119 120 TATR 0 [121] 1); (mkTx 122 123 TATR 0 [124] 1); (mkTx 125 126 TATR 0 [127] 1); (mkTx 128 129 TATR 0 [44] 1); (mkTx 130 131 TATR 0 [132] 1); (mkTx 133 134 TATR 0 [135] 1); (mkTx 136 137 TATR 0 [138] 1); (mkTx 139 140 TATR 0 [141] 1); (mkTx 142 143 TATR 0 [144] 1); (mkTx 145 146 TATR 0 [147] 1); (mkTx 148 149 TATR 0 [150] 1)] 32 152 (Some (mkTx 151 0 TFee 0 [] 0))) [(42, true); (45, true); (48, true); (51, true); (11, false)] [] [([], 0)] [] true [[3]; []; [0; 1]; [40]].
+  mkRC (mkView (Some (mkPar 40 4 1075000 0 2 5300 20000000 false)) false 0 10000 1042 true true) (mkM [(mkTx 42 43 TNormal 500 [44] 0); (mkTx 45 46 TNormal 5000 [47] 0); (mkTx 48 49 TNormal 150 [50] 0); (mkTx 51 52 TNormal 0 [53] 0)] [44; 47; 50; 53] 5650 true true [(40, mkTx 54 55 TGoldenTicket 0 [] 0)]) 15 1100000 (Some (mkTx 11 12 TBlockStake 0 [] 0)) [43; 46; 49; 52; 12] 0 (mkCv (mkE 9728 0 9728 9728 5728 2486 3242 5300 2650 2650 0 0 2159 1276 883 0 0 2 0 8560372 12649111 0) [(mkTx 56 57 TATR 0 [58] 1); (mkTx 59 60 TATR 0 [61] 1); (mkTx 62 63 TATR 0 [64] 1); (mkTx 65 66 TATR 0 [67] 1); (mkTx 68 69 TATR 0 [70] 1); (mkTx 71 72 TATR 0 [73] 1); (mkTx 74 75 TATR 0 [76] 1); (mkTx 77 78 TATR 0 [79] 1); (mkTx 80 81 TATR 0 [82] 1); (mkTx 83 84 TATR 0 [85] 1); (mkTx 86 87 TATR 0 [88] 1); (mkTx 89 90 TATR 0 [91] 1); (mkTx 92 93 TATR 0 [94] 1); (mkTx 95 96 TATR 0 [97] 1); (mkTx 98 99 TATR 0 [100] 1); (mkTx 101 102 TATR 0 [103] 1); (mkTx 104 105 TATR 0 [106] 1); (mkTx 107 108 TATR 0 [109] 1); (mkTx 110 111 TATR 0 [112] 1); (mkTx 113 114 TATR 0 [115] 1); (mkTx 116 117 TATR 0 [118] 1); (mkTx 119 120 TATR 0 [121] 1); (mkTx 122 123 TATR 0 [124] 1); (mkTx 125 126 TATR 0 [127] 1); (mkTx 128 129 TATR 0 [44] 1); (mkTx 130 131 TATR 0 [132] 1); (mkTx 133 134 TATR 0 [135] 1); (mkTx 136 137 TATR 0 [138] 1); (mkTx 139 140 TATR 0 [141] 1); (mkTx 142 143 TATR 0 [144] 1); (mkTx 145 146 TATR 0 [147] 1); (mkTx 148 149 TATR 0 [150] 1)] 32 152 (Some (mkTx 151 0 TFee 0 [] 0))) (mkCv (mkE 9728 0 9728 9728 5728 2486 3242 5300 2650 2650 0 0 2159 1276 883 0 0 2 0 8560372 12649111 0) [(mkTx 56 57 TATR 0 [58] 1); (mkTx 59 60 TATR 0 [61] 1); (mkTx 62 63 TATR 0 [64] 1); (mkTx 65 66 TATR 0 [67] 1); (mkTx 68 69 TATR 0 [70] 1); (mkTx 71 72 TATR 0 [73] 1); (mkTx 74 75 TATR 0 [76] 1); (mkTx 77 78 TATR 0 [79] 1); (mkTx 80 81 TATR 0 [82] 1); (mkTx 83 84 TATR 0 [85] 1); (mkTx 86 87 TATR 0 [88] 1); (mkTx 89 90 TATR 0 [91] 1); (mkTx 92 93 TATR 0 [94] 1); (mkTx 95 96 TATR 0 [97] 1); (mkTx 98 99 TATR 0 [100] 1); (mkTx 101 102 TATR 0 [103] 1); (mkTx 104 105 TATR 0 [106] 1); (mkTx 107 108 TATR 0 [109] 1); (mkTx 110 111 TATR 0 [112] 1); (mkTx 113 114 TATR 0 [115] 1); (mkTx 116 117 TATR 0 [118] 1); (mkTx 119 120 TATR 0 [121] 1); (mkTx 122 123 TATR 0 [124] 1); (mkTx 125 126 TATR 0 [127] 1); (mkTx 128 129 TATR 0 [44] 1); (mkTx 130 131 TATR 0 [132] 1); (mkTx 133 134 TATR 0 [135] 1); (mkTx 136 137 TATR 0 [138] 1); (mkTx 139 140 TATR 0 [141] 1); (mkTx 142 143 TATR 0 [144] 1); (mkTx 145 146 TATR 0 [147] 1); (mkTx 148 149 TATR 0 [150] 1)] 32 152 (Some (mkTx 151 0 TFee 0 [] 0))) [(42, true); (45, true); (48, true); (51, true); (11, false)] [] [([], 0)] [] true [[3]; []; [0; 1]; [40]].
 
-(* ts: {"label": "timestamp-order", "tip": 3, "gap_ms": 0, "pool_size": 3, "cached_work": 5150, "work_needed": 10000000000000000000, "gt_for_tip": false, "outcome": "Panicked", "detail": "panic: current timestamp = \"1970-01-01 00:17:30 UTC\" should be larger than previous block timestamp : \"1970-01-01 00:17:30 UTC\""} *)
+(* ts: {"label": "timestamp-order", "tip": 3, "gap_ms": 0, "pool_size": 3, "cached_work": 5150, "work_needed": 10000000000000000000, "gt_for_tip": false, "outcome": "GateClosed", "detail": ""} *)
 Definition wit_ts : rcase :=
-  mkRC (mkView (Some (mkPar 27 3 1050000 0 2120 5300 31622777 false)) false 0 10000 1224 true true) (mkM [(mkTx 31 32 TNormal 150 [33] 0); (mkTx 34 35 TNormal 0 [36] 0); (mkTx 37 38 TNormal 5000 [39] 0)] [33; 36; 39] 5150 true true []) 15 1050000 (Some (mkTx 11 12 TBlockStake 0 [] 0)) [] 0 (mkCv econ0 [] 0 0 None) (mkCv econ0 [] 0 0 None) [(31, true); (34, true); (37, true); (11, false)] [] [([], 0)] [] true [[903]].
+  mkRC (mkView (Some (mkPar 27 3 1050000 0 2120 5300 31622777 false)) false 0 10000 4868 true true) (mkM [(mkTx 31 32 TNormal 150 [33] 0); (mkTx 34 35 TNormal 0 [36] 0); (mkTx 37 38 TNormal 5000 [39] 0)] [33; 36; 39] 5150 true true []) 15 1050000 (Some (mkTx 11 12 TBlockStake 0 [] 0)) [32; 35; 38; 12] 0 (mkCv econ0 [] 0 0 None) (mkCv econ0 [] 0 0 None) [(31, true); (34, true); (37, true); (11, false)] [] [([], 0)] [] true [[1]; [32; 35; 38]; [5150; 1]; []].
 
 (* dust: {"label": "dust-spend", "tip": 4, "gap_ms": 25000, "pool_size": 5, "cached_work": 80500, "work_needed": 0, "gt_for_tip": true, "outcome": "Rejected", "detail": "block 5 txs(types) [2, 0, 0, 0, 0, 0, 1] producer Panicked second node Panicked; atr multiplier 1; diffs []; create-vs-validate cv []"} *)
 Definition wit_dust : rcase :=
-  mkRC (mkView (Some (mkPar 49 4 1075000 0 2 80000 20000000 false)) false 0 10000 953 true true) (mkM [(mkTx 51 52 TNormal 20000 [53] 0); (mkTx 54 55 TNormal 20000 [56] 0); (mkTx 57 58 TNormal 20000 [59] 0); (mkTx 60 61 TNormal 500 [62] 0); (mkTx 63 64 TNormal 20000 [65] 0)] [53; 56; 59; 62; 65] 80500 true true [(49, mkTx 66 67 TGoldenTicket 0 [] 0)]) 18 1100000 (Some (mkTx 14 15 TBlockStake 0 [] 0)) [61; 58; 52; 55; 64] 68 (mkCv (mkE 96928 80500 16428 80500 69840 64364 5476 80000 40000 40000 0 0 32592 19259 13333 0 0 36 37 5476 12649111 0) [] 0 0 (Some (mkTx 69 0 TFee 0 [] 0))) (mkCv (mkE 96928 80500 16428 80500 69840 64364 5476 80000 40000 40000 0 0 32592 19259 13333 0 0 36 37 5476 12649111 0) [] 0 0 (Some (mkTx 69 0 TFee 0 [] 0))) [(51, true); (54, true); (57, true); (60, true); (63, true); (14, false); (66, true); (69, true)] [(66, true)] [([], 0)] [([66; 60; 57; 51; 54; 63; 69], 71)] false [[4]; [66; 60; 57; 51; 54; 63; 69]; [5; 1100000; 49; 0; 40000; 2]; [96928; 80500; 16428; 80500; 69840; 64364; 5476; 80000; 40000; 40000; 0; 0; 32592; 19259; 13333; 0; 0; 36; 37; 5476; 12649111; 0]; [80500; 0; 0; 71]; [905; 905]; []; [0; 0]; [49]].
+  mkRC (mkView (Some (mkPar 49 4 1075000 0 2 80000 20000000 false)) false 0 10000 2743 true true) (mkM [(mkTx 51 52 TNormal 20000 [53] 0); (mkTx 54 55 TNormal 20000 [56] 0); (mkTx 57 58 TNormal 20000 [59] 0); (mkTx 60 61 TNormal 500 [62] 0); (mkTx 63 64 TNormal 20000 [65] 0)] [53; 56; 59; 62; 65] 80500 true true [(49, mkTx 66 67 TGoldenTicket 0 [] 0)]) 18 1100000 (Some (mkTx 14 15 TBlockStake 0 [] 0)) [64; 55; 52; 58; 61] 68 (mkCv (mkE 96928 80500 16428 80500 69840 64364 5476 80000 40000 40000 0 0 32592 19259 13333 0 0 36 37 5476 12649111 0) [] 0 0 (Some (mkTx 69 0 TFee 0 [] 0))) (mkCv (mkE 96928 80500 16428 80500 69840 64364 5476 80000 40000 40000 0 0 32592 19259 13333 0 0 36 37 5476 12649111 0) [] 0 0 (Some (mkTx 69 0 TFee 0 [] 0))) [(51, true); (54, true); (57, true); (60, true); (63, true); (14, false); (66, true); (69, true)] [(66, true)] [([], 0)] [([66; 63; 54; 51; 57; 60; 69], 71)] false [[4]; [66; 63; 54; 51; 57; 60; 69]; [5; 1100000; 49; 0; 40000; 2]; [96928; 80500; 16428; 80500; 69840; 64364; 5476; 80000; 40000; 40000; 0; 0; 32592; 19259; 13333; 0; 0; 36; 37; 5476; 12649111; 0]; [80500; 0; 0; 71]; [905; 905]; []; [0; 0]; [49]].
 
 (* ok: {"label": "work-gated", "tip": 10, "gap_ms": 10000, "pool_size": 3, "cached_work": 5150, "work_needed": 2000, "gt_for_tip": true, "outcome": "Accepted", "detail": "block 11 txs(types) [2, 7, 0, 0, 0, 3, 1] producer OnChain second node OnChain; atr multiplier 1; diffs []; create-vs-validate cv []"} *)
 Definition wit_ok : rcase :=
-  mkRC (mkView (Some (mkPar 135 10 1124998 7922 3426 5300 20001000 false)) false 50000 10000 1726 true true) (mkM [(mkTx 204 205 TNormal 5000 [206] 0); (mkTx 207 208 TNormal 150 [209] 0); (mkTx 210 211 TNormal 0 [212] 0)] [206; 209; 212] 5150 true true [(135, mkTx 213 214 TGoldenTicket 0 [] 0)]) 16 1134998 (Some (mkTx 76 77 TBlockStake 0 [215] 0)) [77; 205; 208; 211] 216 (mkCv (mkE 5300 5300 0 5300 3903 3903 0 5300 2650 2650 0 0 1895 969 331 0 0 0 3 1912930 20001000 0) [(mkTx 217 12 TATR 0 [218] 1)] 1 221 (Some (mkTx 219 0 TFee 0 [] 0))) (mkCv (mkE 5300 5300 0 5300 3903 3903 0 5300 2650 2650 0 0 1895 969 331 0 0 0 3 1912930 20001000 0) [(mkTx 217 12 TATR 0 [218] 1)] 1 221 (Some (mkTx 219 0 TFee 0 [] 0))) [(204, true); (207, true); (210, true); (76, true); (213, true); (217, true); (219, true)] [(213, true)] [([217], 221); ([], 0)] [([213; 76; 204; 207; 210; 217; 219], 222)] true [[4]; [213; 76; 204; 207; 210; 217; 219]; [11; 1134998; 135; 0; 10572; 3426]; [5300; 5300; 0; 5300; 3903; 3903; 0; 5300; 2650; 2650; 0; 0; 1895; 969; 331; 0; 0; 0; 3; 1912930; 20001000; 0]; [5150; 1; 221; 222]; [1; 1]; []; [0; 0]; []].
+  mkRC (mkView (Some (mkPar 135 10 1124998 7922 3426 5300 20001000 false)) false 50000 10000 1150 true true) (mkM [(mkTx 204 205 TNormal 5000 [206] 0); (mkTx 207 208 TNormal 150 [209] 0); (mkTx 210 211 TNormal 0 [212] 0)] [206; 209; 212] 5150 true true [(135, mkTx 213 214 TGoldenTicket 0 [] 0)]) 16 1134998 (Some (mkTx 76 77 TBlockStake 0 [215] 0)) [77; 211; 205; 208] 216 (mkCv (mkE 5300 5300 0 5300 3903 3903 0 5300 2650 2650 0 0 1895 969 331 0 0 0 3 1912930 20001000 0) [(mkTx 217 12 TATR 0 [218] 1)] 1 221 (Some (mkTx 219 0 TFee 0 [] 0))) (mkCv (mkE 5300 5300 0 5300 3903 3903 0 5300 2650 2650 0 0 1895 969 331 0 0 0 3 1912930 20001000 0) [(mkTx 217 12 TATR 0 [218] 1)] 1 221 (Some (mkTx 219 0 TFee 0 [] 0))) [(204, true); (207, true); (210, true); (76, true); (213, true); (217, true); (219, true)] [(213, true)] [([217], 221); ([], 0)] [([213; 76; 210; 204; 207; 217; 219], 222)] true [[4]; [213; 76; 210; 204; 207; 217; 219]; [11; 1134998; 135; 0; 10572; 3426]; [5300; 5300; 0; 5300; 3903; 3903; 0; 5300; 2650; 2650; 0; 0; 1895; 969; 331; 0; 0; 0; 3; 1912930; 20001000; 0]; [5150; 1; 221; 222]; [1; 1]; []; [0; 0]; []].
 
 
 (* the full statement fails: parent.treasury >= genesis_period * parent.avg_nolan_rebroadcast_per_block > 0
@@ -319,10 +319,12 @@ Example C07_dust_spend_witness : exists b,
   /\ run_rcase wn0 wit_dust = rc_expected wit_dust.
 Proof. eexists. split; [vm_compute; reflexivity|]. repeat split; vm_compute; reflexivity. Qed.
 
-(* timestamp not after the tip's *)
-Example C07_timestamp_panic_witness :
-  run_rcase wn0 wit_ts = [[900 + SITE_BUNDLE_TS]] /\ run_rcase wn0 wit_ts = rc_expected wit_ts.
-Proof. split; vm_compute; reflexivity. Qed.
+(* timestamp not after the tip's: recorded round, no block, pool unchanged *)
+Example C07_timestamp_declined_witness :
+  rc_ts wit_ts <= match v_tip (rc_view wit_ts) with Some p => par_ts p | None => 0 end
+  /\ hd [] (run_rcase wn0 wit_ts) = [1]
+  /\ run_rcase wn0 wit_ts = rc_expected wit_ts.
+Proof. repeat split; vm_compute; try reflexivity; discriminate. Qed.
 
 (* non-vacuity: a recorded round (golden ticket, staking transaction, three transfers,
    rebroadcasts, fee transaction; staking on, window wrapped) that meets every hypothesis
@@ -374,7 +376,7 @@ Print Assumptions C07_bundle_produced_validates.
 Print Assumptions C07_second_node.
 Print Assumptions C07_invalid_gt_rejected.
 Print Assumptions C07_invalid_gt_stuck.
-Print Assumptions C07_bundle_ts_panics.
+Print Assumptions C07_bundle_ts_declines.
 Print Assumptions C07_create_error_is_double_spend.
 Print Assumptions C07_create_failure_drains.
 Print Assumptions C07_produced_validates_refuted_cap.
@@ -382,7 +384,7 @@ Print Assumptions C07_produced_validates_refuted_gt.
 Print Assumptions C07_produced_validates_refuted_issuance.
 Print Assumptions C07_produced_validates_refuted_stake.
 Print Assumptions C07_rebroadcast_clash_witness.
-Print Assumptions C07_timestamp_panic_witness.
+Print Assumptions C07_timestamp_declined_witness.
 Print Assumptions C07_dust_spend_witness.
 Print Assumptions C07_example.
 Print Assumptions C07_gate_needs_honest_cache.
